@@ -10,7 +10,7 @@ From GT Require Import Base.UTree Spec.Obs Model.Reroot Model.Outgroup Spec.Unro
      Proofs.RerootBase Proofs.Reroot Proofs.Unroot Proofs.Reorder Proofs.Splits Proofs.USplits
      Proofs.C05Main
      Proofs.OutgroupBase Proofs.OutgroupCut Proofs.OutgroupKeep Proofs.OutgroupLCA Proofs.OutgroupClade
-     Proofs.OutgroupMain Proofs.OutgroupMidpoint Proofs.OutgroupWitness.
+     Proofs.OutgroupMain Proofs.OutgroupSide Proofs.OutgroupMidpoint Proofs.OutgroupWitness.
 Import ListNotations.
 Local Close Scope Q_scope.
 
@@ -268,8 +268,8 @@ Print Assumptions C05_example_reorder.
     (RerootOutGroup + LeastCommonAncestorUnrooted/Recur), proofs in Proofs/Outgroup*.v.
     [group (unroot t) names] = the requested names that are tips, without repetition;
     [side_of t G] = some branch of [t] separates exactly the tips [G] from the others;
-    [half_edge e] = what the code writes on the two new root branches: half the length and the
-    support of [e] if its length is > 0, otherwise NO length and NO support. *)
+    [half_edge e] = what the code writes on the two new root branches: half the length of [e]
+    (no length if [e] has none) and the support of [e]; p-value and comments are not copied. *)
 
 (** the requested names that count *)
 Theorem C05_group_In :
@@ -356,31 +356,62 @@ Theorem C05_outgroup_strict_clade :
 Proof. exact outgroup_strict_clade. Qed.
 Print Assumptions C05_outgroup_strict_clade.
 
-(** a separating branch of positive length is cut into two equal halves with its support *)
-Theorem C05_half_edge_pos :
-  forall e, (0 < elen e)%Q ->
-    (elen (half_edge e) == elen e * (1 # 2))%Q /\ esup (half_edge e) = esup e /\
+(** the separating branch is cut into two equal halves (a length 0 included), each with the
+    support of the branch; a branch without length gives two branches without length *)
+Theorem C05_half_edge_len :
+  forall e, qeqb (elen e) nilv = false ->
+    (elen (half_edge e) == elen e * (1 # 2))%Q /\
     (elen (half_edge e) + elen (half_edge e) == elen e)%Q.
-Proof. exact half_edge_pos. Qed.
-Print Assumptions C05_half_edge_pos.
+Proof. exact half_edge_len. Qed.
+Print Assumptions C05_half_edge_len.
 
-(** NOT so for a separating branch of length 0: "cut into two equal halves" is refuted, the two
-    root branches come back with neither length nor support (RerootOutGroup writes them only
-    `if length > 0`) *)
-Theorem C05_half_edge_nonpos : forall e, (elen e <= 0)%Q -> half_edge e = e0.
-Proof. exact half_edge_nonpos. Qed.
-Print Assumptions C05_half_edge_nonpos.
+Theorem C05_half_edge_sup : forall e, (esup (half_edge e) == esup e)%Q.
+Proof. exact half_edge_sup. Qed.
+Print Assumptions C05_half_edge_sup.
 
-Theorem C05_outgroup_zero_cut_refuted :
-  exists t names t' e,
-    wf t = true /\ 3 <= degree t /\ NoDup (leaves t) /\
-    reroot_outgroup false true t names = Ok t' /\
-    side_of_e (unroot t) (group (unroot t) names) e /\
-    (elen e == 0)%Q /\ (esup e == 4 # 5)%Q /\
-    Forall (fun p => (elen (fst p) == -1)%Q /\ (esup (fst p) == -1)%Q) (kids t') /\
-    ~ Forall (fun p => (elen (fst p) == elen e * (1 # 2))%Q) (kids t').
-Proof. exact outgroup_zero_cut_refuted. Qed.
-Print Assumptions C05_outgroup_zero_cut_refuted.
+Theorem C05_half_edge_nil : forall e, qeqb (elen e) nilv = true -> elen (half_edge e) = nilv.
+Proof. exact half_edge_nil. Qed.
+Print Assumptions C05_half_edge_nil.
+
+(** (ii) for an outgroup that is one side of a split, strict or not: same conclusion *)
+Theorem C05_outgroup_side_clade :
+  forall strict t names t',
+    wf t = true -> 2 <= degree t -> (rooted t = true -> root_has_inner_child t = true) ->
+    NoDup (leaves t) ->
+    side_of t (group (unroot t) names) ->
+    reroot_outgroup false strict t names = Ok t' ->
+    let G := group (unroot t) names in
+    exists e e1 c1 e2 c2,
+      kids t' = [(e1, c1); (e2, c2)] /\ degree t' = 2 /\
+      e1 = half_edge e /\ e2 = half_edge e /\
+      side_of_e (unroot t) G e /\
+      (Permutation (leaves c1) G \/ Permutation (leaves c2) G).
+Proof. exact outgroup_side_clade. Qed.
+Print Assumptions C05_outgroup_side_clade.
+
+(** every success without removal, in particular a non-monophyletic outgroup in non-strict mode:
+    the requested tips are all below one of the two children of the new root *)
+Theorem C05_outgroup_inside_one_clade :
+  forall strict t names t',
+    wf t = true -> 2 <= degree t -> (rooted t = true -> root_has_inner_child t = true) ->
+    NoDup (leaves t) ->
+    reroot_outgroup false strict t names = Ok t' ->
+    let G := group (unroot t) names in
+    exists e1 c1 e2 c2,
+      kids t' = [(e1, c1); (e2, c2)] /\ degree t' = 2 /\
+      (incl G (leaves c1) \/ incl G (leaves c2)).
+Proof. exact outgroup_inside_one_clade. Qed.
+Print Assumptions C05_outgroup_inside_one_clade.
+
+(** the separating branch of length 0 (the case repaired in /repo): two halves of length 0 that
+    keep the support *)
+Example C05_example_outgroup_zero_cut :
+  exists t',
+    wf og_w0 = true /\ 3 <= degree og_w0 /\ NoDup (leaves og_w0) /\
+    reroot_outgroup false true og_w0 ["a"; "b"]%string = Ok t' /\
+    Forall (fun p => (elen (fst p) == 0)%Q /\ (esup (fst p) == 4 # 5)%Q) (kids t').
+Proof. exact outgroup_zero_cut_example. Qed.
+Print Assumptions C05_example_outgroup_zero_cut.
 
 (** * (e) midpoint rooting: Model/Outgroup.v [reroot_midpoint] (RerootMidPoint + MaxLengthPath) *)
 
@@ -393,36 +424,16 @@ Theorem C05_midpoint_wf_leaves :
 Proof. exact reroot_midpoint_wf_leaves. Qed.
 Print Assumptions C05_midpoint_wf_leaves.
 
-(** what does NOT hold (witnesses with branches of length 0; every branch has a length >= 0):
-    path lengths can change, ... *)
-Theorem C05_midpoint_dists_refuted :
-  exists t t',
-    wf t = true /\ 3 <= degree t /\ NoDup (leaves t) /\
-    (forall x, In x (bsplits t) -> (0 <= elen (fst (fst x)))%Q) /\
-    reroot_midpoint t = Ok t' /\
-    ~ dists_equiv (pairdists len0 t') (pairdists len0 t).
-Proof. exact reroot_midpoint_dists_refuted. Qed.
-Print Assumptions C05_midpoint_dists_refuted.
-
-(** ... the root can be at an end of the longest path instead of halfway, ... *)
-Theorem C05_midpoint_halfway_refuted :
-  exists t t',
-    wf t = true /\ 3 <= degree t /\ NoDup (leaves t) /\
-    (forall x, In x (bsplits t) -> (0 <= elen (fst (fst x)))%Q) /\
-    reroot_midpoint t = Ok t' /\
-    ~ halfway t t'.
-Proof. exact reroot_midpoint_halfway_refuted. Qed.
-Print Assumptions C05_midpoint_halfway_refuted.
-
-(** ... and when every branch has length 0 the function panics (index -1), mirrored by an error *)
-Theorem C05_midpoint_all_zero_refuted :
-  exists t m,
-    wf t = true /\ 3 <= degree t /\ NoDup (leaves t) /\
-    (forall x, In x (bsplits t) -> (elen (fst (fst x)) == 0)%Q) /\
-    reroot_midpoint t = Err m /\
-    m = "panic: runtime error: index out of range [-1]"%string.
-Proof. exact reroot_midpoint_all_zero_refuted. Qed.
-Print Assumptions C05_midpoint_all_zero_refuted.
+(** the inputs of the two midpoint defects repaired in /repo (zero-length tail of the longest
+    path; all branches of length 0): root halfway, path lengths kept; clean refusal *)
+Example C05_example_midpoint :
+  (exists t', reroot_midpoint mp_w1 = Ok t' /\ halfway mp_w1 t' /\
+              matrix_eqb (dist_matrix len0 t') (dist_matrix len0 mp_w1) = true) /\
+  (exists t', reroot_midpoint mp_w2 = Ok t' /\ halfway mp_w2 t' /\
+              matrix_eqb (dist_matrix len0 t') (dist_matrix len0 mp_w2) = true) /\
+  reroot_midpoint mp_w3 = Err "cannot reroot at midpoint: all tip to tip paths have a null length"%string.
+Proof. exact midpoint_examples. Qed.
+Print Assumptions C05_example_midpoint.
 
 (** * the hypotheses are satisfiable and the functions act *)
 Example C05_example_outgroup :
